@@ -51,6 +51,10 @@ class Ctx:
         self.taps = 0
         self.stoch_pre = None
         self.voltage = {s["id"]: s["voltage"] for s in sc["network"]["stations"]}
+        from .world import crash_periods
+        self.crash_periods = set(crash_periods(sc)) if (any(r.get("at_crash") for r in sc.get("reconfig", ())) or sc.get("interventions")) else set()
+        self.applied = set()
+        self.intervention_late = False
 
     def log(self, item):
         self.events.append(item)
@@ -116,15 +120,70 @@ class Ctx:
         for h in self.period_hooks:
             h(self, network, t)
         for r in self.sc.get("reconfig", ()):
-            if r["t"] == t + 1:
+            if r["t"] == t + 1 and not self.at_crash(r):
                 self.apply_reconfig(network, r)
+            elif r["t"] == t and self.at_crash(r) and id(r) not in self.applied:
+                # the interruption this change was tied to did not come in that period (the scheduler was not asked when the model
+                # says it must be): the change is made now, and the run is not judged on anything that depends on it
+                self.apply_reconfig(network, r)
+                self.intervention_late = True
+        if t in self.sc.get("monitor", ()) and self.sim is not None and network is self.sim.network:
+            self.monitor(t)
+
+    def at_crash(self, r):
+        return bool(r.get("at_crash")) and r["t"] in self.crash_periods
+
+    def crash_interventions(self, t):
+        """What the operator does between the scheduler's failure in period t and the resumption."""
+        nw = self.sim.network
+        for r in self.sc.get("reconfig", ()):
+            if r["t"] == t and self.at_crash(r) and id(r) not in self.applied:
+                self.apply_reconfig(nw, r)
+                self.fired("reconfig_at_interruption")
+        for iv in self.sc.get("interventions", ()):
+            if iv["t"] == t and iv["kind"] == "unplug" and id(iv) not in self.applied:
+                self.applied.add(id(iv))
+                for s in nw.station_ids:
+                    ev = nw.get_ev(s)
+                    if ev is not None and ev.session_id == iv["session"]:
+                        nw.unplug(s, ev.session_id)
+                        self.fired("cable_pulled_at_interruption")
+                        self.events.append(("forced_unplug", t, s, iv["session"]))
+
+    def monitor(self, t):
+        """The operator's monitoring script (end of period t): fetch the result tables, post-process ITS OWN frames in place."""
+        sim = self.sim
+        r = sub(self.sc["seed"], "monitor:%d" % t)
+        for name in ("pilot_signals_as_df", "charging_rates_as_df"):
+            df = getattr(sim, name)()
+            how = r.choice(["iloc", "loc", "clip", "values"])
+            if df.shape[0] == 0 or df.shape[1] == 0:
+                continue
+            if how == "iloc":
+                df.iloc[:, :] = -7.5
+            elif how == "loc":
+                df.loc[df.index[-1]:, :] = 99.0
+                df.loc[:, df.columns[0]] = -1.0
+            elif how == "clip":
+                df.clip(lower=1000.0, inplace=True)
+            else:
+                try:
+                    df.values[...] = 123.0
+                except ValueError:
+                    pass            # (read-only buffer: nothing to scribble on)
+        self.fired("monitor_edited_its_frames")
 
     def apply_reconfig(self, network, r):
+        self.applied.add(id(r))
         """Environment fault: the operator changes a constraint's limit between two periods (public update_constraint)."""
         c = next((k for k in self.sc["network"]["constraints"] if k["name"] == r["name"]), None)
         if c is None or r["name"] not in network.constraint_index:
             return
-        network.update_constraint(r["name"], sut.Current(dict(c["coeffs"])), r["limit"])
+        if r.get("op") == "remove":
+            network.remove_constraint(r["name"])
+            self.fired("reconfig_remove")
+        else:
+            network.update_constraint(r["name"], sut.Current(dict(c["coeffs"])), r["limit"])
         self.fired("reconfig")
         self.events.append(("reconfig", r["t"], r["name"], r["limit"]))
 
@@ -458,6 +517,7 @@ def _run_world(sc, observe=0, snapshot=True, setup=None, mutate_constraints=True
                     break
                 except (SchedulerCrash, SchedulerInterrupt) as c:
                     mode = c.fault.get("resume", "rerun")
+                    ctx.crash_interventions(ctx.sim.iteration)
                     nw_ = ctx.sim.network
                     if mode != "rerun" and hasattr(nw_, "waiting_queue") and (
                             len(nw_.waiting_queue) or nw_.early_departure or nw_.swaps or nw_.never_charged or nw_.early_unplug):
